@@ -6,7 +6,8 @@ From Coq Require Import List Reals QArith Qreals Bool.
 From TLV Require Import Base.Ops Model.Prox Proofs.ProxProofs Proofs.ProxProofsHard Proofs.ProxProofsRefute
   Proofs.ProxProofsSimplex Proofs.ProxProofsMono Proofs.ProxProofsIso Proofs.ProxTransfer
   Proofs.ProxProofsSmooth Proofs.ProxProofsFirm Proofs.ProxProofsNormSp Proofs.ProxProofsUni
-  Model.ProxDispatch Proofs.ProxProofsDispatch.
+  Base.Tensor Model.Constraints Proofs.ConstraintsProofsKeys Model.ProxDispatch Proofs.ProxProofsDispatch
+  Proofs.ProxProofsMore Proofs.ProxProofsMatrix.
 Import ListNotations.
 Open Scope R_scope.
 
@@ -243,20 +244,66 @@ Theorem C12_hard_exec_nearest : forall (k : nat) (v : list Q) (z : list R), leng
 Proof. exact hard_exec_nearest. Qed.
 Print Assumptions C12_hard_exec_nearest.
 
-(* ---- proximal_operator's decision logic (validate_constraints: dict / list / scalar keyword arguments registered in the code's
-   fixed order): the selected mode gets exactly the constraint and parameter registered for it - whatever the order in which
-   the keyword arguments are written - provided no other argument names that mode (the code raises otherwise); and the tensor
-   is returned unchanged (no constraint) when no argument names the mode *)
-Theorem C12_validate_selected : forall (P : Type) n order (specs : list (nat * cspec P)) c s p, (order < n)%nat ->
-  In (c, s) specs -> param_at s order = Some p ->
-  (forall c' s', In (c', s') specs -> param_at s' order <> None -> (c', s') = (c, s)) ->
-  validate n order specs = Some (c, p).
-Proof. exact @validate_selected. Qed.
-Print Assumptions C12_validate_selected.
-Theorem C12_validate_unconstrained : forall (P : Type) n order (specs : list (nat * cspec P)),
-  (forall c s, In (c, s) specs -> param_at s order = None) -> validate n order specs = @None (nat * P).
-Proof. exact @validate_unconstrained. Qed.
-Print Assumptions C12_validate_unconstrained.
+(* ---- proximal_operator's decision logic.  The authoritative model of validate_constraints is C11's Model/Constraints.v (zvalidate:
+   truthiness, dict / list / scalar values, Python int keys incl. negative ones, the ValueError branches; theorem C11_validate_order).
+   C12 only adds how the keywords a caller wrote are presented to it (Model/ProxDispatch.validate_kwargs) and proves that the order in
+   which they are written is irrelevant; C12_dispatch_selected is C11's theorem at the instance the C12 correspondence executes. *)
+Theorem C12_dispatch_order_irrelevant : forall n order (specs specs' : kwargs),
+  NoDup (map fst specs) -> Permutation.Permutation specs specs' -> validate_kwargs n order specs = validate_kwargs n order specs'.
+Proof. exact validate_kwargs_order_irrelevant. Qed.
+Print Assumptions C12_dispatch_order_irrelevant.
+Theorem C12_dispatch_selected : forall n order (specs : kwargs) c, validate_kwargs n order specs = Ok c ->
+  (order < n)%nat /\
+  (forall k p, c = Some (k, p) <-> exists s, In (k, s) (zkeywords (spec_of specs)) /\ zrequested qtruthy n s order p) /\
+  (c = None <-> forall k s p, In (k, s) (zkeywords (spec_of specs)) -> ~ zrequested qtruthy n s order p).
+Proof. exact validate_kwargs_spec. Qed.
+Print Assumptions C12_dispatch_selected.
+
+(* ---- further firmly non-expansive / idempotent instances *)
+Theorem C12_smoothness_firmly_nonexpansive : forall t u v, 0 <= t -> length u = length v ->
+  dist2 Rops (smoothness_solve Rops t u) (smoothness_solve Rops t v)
+  <= dotd (smoothness_solve Rops t u) (smoothness_solve Rops t v) u v.
+Proof. exact smoothness_firmly_nonexpansive. Qed.
+Print Assumptions C12_smoothness_firmly_nonexpansive.
+Theorem C12_monotone_dec_firmly_nonexpansive : forall u v, length u = length v ->
+  dist2 Rops (monotonicity_prox Rops true u) (monotonicity_prox Rops true v)
+  <= dotd (monotonicity_prox Rops true u) (monotonicity_prox Rops true v) u v.
+Proof. exact monotone_dec_firmly_nonexpansive. Qed.
+Print Assumptions C12_monotone_dec_firmly_nonexpansive.
+Theorem C12_l1ball_outside_firmly_nonexpansive : forall p u v, 0 < p -> p <= l1n Rops u -> p <= l1n Rops v -> length u = length v ->
+  dist2 Rops (soft_sparsity_prox Rops p u) (soft_sparsity_prox Rops p v)
+  <= dotd (soft_sparsity_prox Rops p u) (soft_sparsity_prox Rops p v) u v.
+Proof. exact l1ball_outside_firmly_nonexpansive. Qed.
+Print Assumptions C12_l1ball_outside_firmly_nonexpansive.
+Theorem C12_normalize_idempotent : forall v, 0 < maxabs Rops v -> normalize Rops (normalize Rops v) = normalize Rops v.
+Proof. exact normalize_idempotent. Qed.
+Print Assumptions C12_normalize_idempotent.
+Theorem C12_normalized_sparsity_idempotent : forall s k v, 0 < s -> s * s = sumsq Rops (hard_thresholding Rops k v) ->
+  normalized_sparsity_with Rops 1 k (normalized_sparsity_with Rops s k v) = normalized_sparsity_with Rops s k v.
+Proof. exact normalized_sparsity_idempotent. Qed.
+Print Assumptions C12_normalized_sparsity_idempotent.
+
+(* ---- matrices: the code applies the operators column by column (colwise) or on the flattened tensor (flatwise); for a rectangular
+   n x c matrix the columns of colwise f X are f of the columns of X and the flattening of flatwise f X is f of the flattening,
+   so the per-vector theorems above hold column by column / on the flattening (e.g. C12_colwise_simplex) *)
+Theorem C12_colwise_columns : forall n c (f : list R -> list R) X, (1 <= n)%nat -> (1 <= c)%nat -> rect n c X ->
+  (forall col, length col = n -> length (f col) = n) ->
+  cols_of Rops (colwise Rops f X) = map f (cols_of Rops X).
+Proof. exact colwise_columns. Qed.
+Print Assumptions C12_colwise_columns.
+Theorem C12_colwise_simplex : forall n c p X, (1 <= n)%nat -> (1 <= c)%nat -> rect n c X -> 0 < p ->
+  Forall (fun col => Forall (fun x => 0 <= x) col /\ lsum Rops col = p) (cols_of Rops (colwise Rops (simplex_prox Rops p) X)).
+Proof. exact colwise_simplex. Qed.
+Print Assumptions C12_colwise_simplex.
+Theorem C12_flatwise_flat : forall n c (f : list R -> list R) X, (1 <= n)%nat -> (1 <= c)%nat -> rect n c X ->
+  length (f (concat X)) = length (concat X) -> concat (flatwise f X) = f (concat X).
+Proof. exact flatwise_flat. Qed.
+Print Assumptions C12_flatwise_flat.
+Theorem C12_smooth_exec_optimal : forall (t : Q) (v : list Q) (z : list R), 0 <= Q2R t -> length z = length v ->
+  sm_apply Rops (Q2R t) 0 (map Q2R (smoothness_solve Qops t v)) = map Q2R v /\
+  smooth_obj (Q2R t) (map Q2R (smoothness_solve Qops t v)) (map Q2R v) <= smooth_obj (Q2R t) z (map Q2R v).
+Proof. exact smooth_exec_optimal. Qed.
+Print Assumptions C12_smooth_exec_optimal.
 
 (* ---- deliberately unfixed operators: refutation (exact rational witness on the executed instance) + what holds *)
 Theorem C12_l1ball_refuted : exists (p : Q) (v : list Q),
@@ -318,7 +365,25 @@ Example C12_nonvacuous_round3 :
   normalized_sparsity_with Qops 5%Q 2 [3; -4; 1]%Q = [(3#5); (-4#5); 0]%Q.
 Proof. repeat split; vm_compute; reflexivity. Qed.
 Example C12_nonvacuous_dispatch :
-  validate 3 1 [(1%nat, CList [None; Some (1#1)%Q; Some (2#1)%Q]); (0%nat, CDict [(0%nat, 1%Q)])] = Some (1%nat, (1#1)%Q) /\
-  validate 3 0 [(1%nat, CList [None; Some (1#1)%Q; Some (2#1)%Q]); (0%nat, CDict [(0%nat, 1%Q)])] = Some (0%nat, 1%Q) /\
-  validate 2 1 [(11%nat, CDict [(0%nat, (3#1)%Q)])] = @None (nat * Q).
+  validate_kwargs 3 1 [(KL1, ZList [None; Some (1#1)%Q; Some (2#1)%Q]); (KNonNeg, ZDict [((-3)%Z, 1%Q)])] = Ok (Some (KL1, (1#1)%Q)) /\
+  validate_kwargs 3 0 [(KNonNeg, ZDict [((-3)%Z, 1%Q)]); (KL1, ZList [None; Some (1#1)%Q; Some (2#1)%Q])] = Ok (Some (KNonNeg, 1%Q)) /\
+  validate_kwargs 2 1 [(KHardSparsity, ZDict [(0%Z, (3#1)%Q)])] = Ok None /\
+  validate_kwargs 3 0 [(KHardSparsity, ZDict [(2%Z, (3#1)%Q)]); (KL1, ZDict [((-1)%Z, 1%Q)])] = Err /\
+  validate_kwargs 2 0 [(KL1, ZList [Some 0%Q; Some 1%Q])] = Ok None.
 Proof. repeat split; vm_compute; reflexivity. Qed.
+(* hypotheses that are not parameter ranges: a valid_ht witness that differs from the model's tie choice; the contract of the norm
+   tape; convex_set / convex_fun instances; a rectangular matrix through colwise / flatwise *)
+Example C12_nonvacuous_hypotheses :
+  valid_ht Qops 2 [1; -3; 2; 3]%Q [0; -3; 0; 3]%Q = true /\
+  hard_thresholding Qops 1 [1; -3; 2; 3]%Q = [0; 0; 0; 3]%Q /\ valid_ht Qops 1 [1; -3; 2; 3]%Q [0; -3; 0; 0]%Q = true /\
+  Qeq_bool (5 * 5)%Q (sumsq Qops (hard_thresholding Qops 2 [3; -4; 1]%Q)) = true /\
+  cols_of Qops (colwise Qops (simplex_prox Qops 1%Q) [[3; 0]; [1; 0]]%Q) = [[1; 0]; [(1#2); (1#2)]]%Q /\
+  concat (flatwise (hard_thresholding Qops 1) [[1; -3]; [2; 0]]%Q) = hard_thresholding Qops 1 (concat [[1; -3]; [2; 0]]%Q) /\
+  Qle_bool 1%Q (l1n Qops [2; -1]%Q) = true /\ Qeq_bool (l1n Qops (soft_sparsity_prox Qops 1%Q [2; -1]%Q)) 1%Q = true.
+Proof. repeat split; vm_compute; reflexivity. Qed.
+Example C12_nonvacuous_convexity :
+  convex_set 3 (Forall (fun x => 0 <= x)) /\ convex_set 3 ndec /\ convex_set 3 (in_simplex 1) /\
+  convex_fun 3 (fun x => 2 * l1n Rops x) /\ convex_fun 3 (fun x => 2 * sqrt (sumsq Rops x)).
+Proof. exact convexity_instances. Qed.
+Example C12_nonvacuous_rect : rect 2 2 [[3; 0]; [1; 0]].
+Proof. repeat constructor. Qed.
